@@ -58,12 +58,12 @@ CLAIMED = {
         note="Trusts TLC and the recording struct / middleware. Response comparison is on what a client would receive (empty handler query = echoed request query)."),
     "C04": dict(
         category="model_checking", design_ref="DESIGN.md §5 C04",
-        technique="TLA+ spec ClientMux (callers, pending map, reader, adversarial server) checked by TLC; the three real clients driven by a scripted adversarial server over raw TCP / raw WebSocket and the recorded caller-level events trace-validated by TLC with silent reader steps",
+        technique="TLA+ spec ClientMux (callers, pending map, reader, adversarial server) checked by TLC; the three real clients driven by a scripted adversarial server over raw TCP / raw WebSocket and the recorded caller-level events trace-validated by TLC with silent reader steps; TLC-generated ClientMux behaviours (MC_ClientMuxGen) stepped through the real clients by probes at allocate / register / write / read / dispatch; the WebSocket notify slot modelled separately (NotifySub, must-violate config) and its hook-level traces from scripted subscribe / unsubscribe / push races trace-validated by TLC",
         text="TLC exhausts all interleavings of 2-3 callers with the reader at the granularity allocate / register / write / receive / dispatch / take, against a server that answers in any order, duplicates answers, answers unknown ids and pushes notify frames reusing in-flight ids (Correlated, DistinctIds, NotifyOnlyToSubscriber). The real blocking, async and WebSocket clients are then driven by a scripted server through every permutation of 4 (quick) / 6 (thorough) concurrent calls with a rotating junk frame, 64-caller random orders and batches; what each caller received is accepted only if TLC finds a schedule of the model's reader that delivers exactly that.",
         note="Trusts TLC and the scripted server. The reader's internal steps are inferred, not logged. Probe-gated replay of TLC schedules at register/write granularity was not built (DESIGN.md section 9 fallback): interleaving exhaustiveness comes from the model, order exhaustiveness from the permutation sweep."),
     "C06": dict(
         category="model_checking", design_ref="DESIGN.md §5 C06",
-        technique="TLA+ spec ClientMux with fault, timeout and cancel actions checked by TLC (safety + liveness, must-violate config for the shutdown order); fault / timeout / cancel scenarios injected into the three real clients by a scripted server and trace-validated by TLC",
+        technique="TLA+ spec ClientMux with fault, timeout and cancel actions checked by TLC (safety + liveness, must-violate config for the shutdown order); fault / timeout / cancel scenarios injected into the three real clients by a scripted server and trace-validated by TLC; TLC-generated fault behaviours (MC_ClientMuxGen_fault: close, junk, malformed, reset, failing write, the two halves of fail_all_pending) stepped through the real clients by probes",
         text="TLC checks NoResidue, WaiterHasFuture and (with fairness) that every waiting call finishes once the connection fails, for faults placed at every step; reversing the shut-writer / drain order of fail_all_pending violates WaiterHasFuture. The real clients face close, reset, malformed frame, inconsistent length, u64::MAX length and truncated response with 0, 1, 3 and 8 (16) calls in flight and every split of requests read / responses sent before the fault; per-call timeouts with late and racing responses; cancellation of async/WebSocket calls. Every call runs under a watchdog; TLC accepts a run only if each result is explainable, the pending map is empty at the end (hook accessor), a later call fails (after a fault) or succeeds (after timeouts/cancels), and a WebSocket subscriber saw end-of-stream.",
         note="Trusts TLC, the scripted server and the add-only verif_pending_len() accessor. A call still running 10 s after the scenario is taken as hung."),
     "C03": dict(
@@ -93,7 +93,7 @@ CLAIMED = {
         note="Trusts TLC and the recorder's content-addressed parser. Stall durations and payload sizes are chosen so that loopback buffering cannot absorb the frame."),
     "C09": dict(
         category="model_checking", design_ref="DESIGN.md §5 C09",
-        technique="TLA+ spec ValueStream (producer, re-chunking sink, bounded channel incl. rendezvous, lookahead, next handler, cancel) checked by TLC over the parameter grid and every interleaving incl. liveness; scripted producers pulled through raw /_svs exchanges and all pullers on real servers and judged by TLC (Trace_ValueStream)",
+        technique="TLA+ spec ValueStream (producer, re-chunking sink, bounded channel incl. rendezvous, lookahead, next handler, cancel) checked by TLC over the parameter grid and every interleaving incl. liveness; scripted producers pulled through raw /_svs exchanges and all pullers on real servers and judged by TLC (Trace_ValueStream); TLC-generated open / next / cancel vectors (MC_ValueStreamGen) replayed on a real server",
         text="TLC draws payload length, chunk size, channel depth and failure point in Init and checks, over every producer/consumer interleaving, that the delivered bytes are a gapless prefix, that at most one reply carries the end marker and only after everything was delivered, that nothing follows the end or a release, that a failure never yields an end marker, that an empty payload is a single empty final chunk, that the reply sequence is the same function of the parameters in every interleaving, and that the exchange terminates. On the implementation, every producer kind is pulled at every boundary residue of the payload length for chunk sizes 1 B..64 KiB (1 MiB), depths 0..4 (8) and both compressions, with failures at chunk boundaries +-1, slow-consumer and slow-producer regimes and mid-stream release, by raw exchanges and by the blocking, async and WebSocket pullers; each pull is judged by the trace specification.",
         note="Trusts TLC, zstd for decompression of the concatenation, and the scripted producers. Chunk-size predictions are as-built layer (drift only)."),
     "C10": dict(
@@ -148,7 +148,7 @@ def main():
     (ROOT / "MANIFEST.json").write_text(json.dumps(man, indent=1) + "\n")
 
 
-HOOK_COMMITS = ["6646e89", "998c52d", "e3e337b", "e237f47", "2715dc2", "1fe3a72", "aac442f"]
+HOOK_COMMITS = ["6646e89", "998c52d", "e3e337b", "e237f47", "2715dc2", "1fe3a72", "aac442f", "bed3429"]
 
 if __name__ == "__main__":
     main()
